@@ -838,6 +838,178 @@ theorem times_zero_add (k : Nat) (h : Rat) : times k (h + 0) = times k h := by
   | succ k ih => simp only [times, ih]; grind
 
 
+/-! ### interval modifications over the pieces of a partition -/
+
+theorem intervalSum_noneIfEmpty (m : Mod → Rat) (x : Option (List Interval)) :
+    intervalSum m (noneIfEmpty x) = intervalSum m x := by
+  cases x with
+  | none => rfl
+  | some l => cases l <;> rfl
+
+theorem intervalSum_slice (m : Mod → Rat) (a : Annotation) (s e : Nat)
+    (hc : CutsOK a.intervals a.seq.length [s, e]) :
+    intervalSum m (slice a (s : Int) (e : Int)).intervals = ivSumIn m a.intervals s e := by
+  rw [slice_eq_general]
+  show intervalSum m (noneIfEmpty (a.intervals.map (·.filterMap (sliceInterval s e)))) = _
+  rw [intervalSum_noneIfEmpty]
+  cases hL : a.intervals with
+  | none => rfl
+  | some L =>
+    have hc' := hc L hL
+    simp only [Option.map_some, intervalSum, ivSumIn]
+    clear hL hc
+    induction L with
+    | nil => rfl
+    | cons iv t ih =>
+      have h := hc' iv (by simp)
+      rw [List.filterMap_cons, sliceInterval_contained (s : Int) (e : Int) iv h.2.1
+        (h.2.2.2 s (by simp)) (h.2.2.2 e (by simp)), List.filter_cons]
+      have iht := ih (fun x hx => hc' x (by simp [hx]))
+      by_cases hin : (s : Int) ≤ iv.start ∧ iv.stop ≤ (e : Int)
+      · simp only [hin, and_self, if_true, decide_true, List.map_cons, List.sum_cons, iht]
+      · simp only [hin, if_false, decide_false, iht]
+        rfl
+
+theorem ivSumIn_split (m : Mod → Rat) (ivs : Option (List Interval)) (lo mid hi : Int) (h1 : lo ≤ mid) (h2 : mid ≤ hi)
+    (hwf : ∀ L, ivs = some L → ∀ iv ∈ L, iv.start < iv.stop ∧ ¬ (iv.start < mid ∧ mid < iv.stop)) :
+    ivSumIn m ivs lo hi = ivSumIn m ivs lo mid + ivSumIn m ivs mid hi := by
+  cases hL : ivs with
+  | none => simp [ivSumIn]; grind
+  | some L =>
+    have hw := hwf L hL
+    simp only [ivSumIn]
+    clear hL hwf
+    induction L with
+    | nil => simp; grind
+    | cons iv t ih =>
+      have h := hw iv (by simp)
+      have iht := ih (fun x hx => hw x (by simp [hx]))
+      simp only [List.filter_cons]
+      by_cases ha : mid ≤ iv.start
+      · have c1 : ¬ (lo ≤ iv.start ∧ iv.stop ≤ mid) := by omega
+        by_cases hb : iv.stop ≤ hi
+        · have c2 : lo ≤ iv.start ∧ iv.stop ≤ hi := by omega
+          have c3 : mid ≤ iv.start ∧ iv.stop ≤ hi := by omega
+          simp only [c1, c2, c3, decide_true, decide_false, if_true, if_false, List.map_cons, List.sum_cons, iht]
+          grind
+        · have c2 : ¬ (lo ≤ iv.start ∧ iv.stop ≤ hi) := by omega
+          have c3 : ¬ (mid ≤ iv.start ∧ iv.stop ≤ hi) := by omega
+          simp only [c1, c2, c3, decide_false, Bool.false_eq_true, if_false]
+          exact iht
+      · have c3 : ¬ (mid ≤ iv.start ∧ iv.stop ≤ hi) := by omega
+        have hstop : iv.stop ≤ mid := by omega
+        by_cases hb : lo ≤ iv.start
+        · have c1 : lo ≤ iv.start ∧ iv.stop ≤ mid := by omega
+          have c2 : lo ≤ iv.start ∧ iv.stop ≤ hi := by omega
+          simp only [c1, c2, c3, decide_true, decide_false, if_true, if_false, List.map_cons, List.sum_cons, iht]
+          grind
+        · have c1 : ¬ (lo ≤ iv.start ∧ iv.stop ≤ mid) := by omega
+          have c2 : ¬ (lo ≤ iv.start ∧ iv.stop ≤ hi) := by omega
+          simp only [c1, c2, c3, decide_false, Bool.false_eq_true, if_false]
+          exact iht
+
+theorem amass_slice_iv (w : Char × List Mod → Rat) (m : Mod → Rat) (t : Option (List Mod) → Rat) (h : Rat)
+    (a : Annotation) (s e : Nat) (hc : CutsOK a.intervals a.seq.length [s, e]) :
+    amass w m t h (slice a (s : Int) (e : Int)) =
+      weight w (residues (slice a (s : Int) (e : Int))) + (if s = 0 then modSum m a.nterm else 0) +
+        (if e < a.seq.length then 0 else modSum m a.cterm) + ivSumIn m a.intervals s e + (h + inherited m t a) := by
+  obtain ⟨f1, f2, f3, f4, f5, f6, -⟩ := slice_fields a (s : Int) (e : Int)
+  have f7 := intervalSum_slice m a s e hc
+  unfold amass inherited
+  rw [f1, f2, f4, f5, f6, f7]
+  have e1 : modSum m (if (s : Int) > 0 then none else a.nterm) = (if s = 0 then modSum m a.nterm else 0) := by
+    split <;> split <;> first | rfl | omega
+  have e2 : modSum m (if (e : Int) < (a.seq.length : Int) then none else a.cterm) =
+      (if e < a.seq.length then 0 else modSum m a.cterm) := by
+    split <;> split <;> first | rfl | omega
+  rw [e1, e2]
+  grind
+
+theorem CutsOK.tail {ivs : Option (List Interval)} {n s e : Nat} {rest : List Nat}
+    (h : CutsOK ivs n (s :: e :: rest)) : CutsOK ivs n (e :: rest) := by
+  intro L hL iv hiv
+  obtain ⟨a1, a2, a3, a4⟩ := h L hL iv hiv
+  exact ⟨a1, a2, a3, fun c hc => a4 c (List.mem_cons_of_mem _ hc)⟩
+
+theorem CutsOK.pair {ivs : Option (List Interval)} {n s e : Nat} {rest : List Nat}
+    (h : CutsOK ivs n (s :: e :: rest)) : CutsOK ivs n [s, e] := by
+  intro L hL iv hiv
+  obtain ⟨a1, a2, a3, a4⟩ := h L hL iv hiv
+  exact ⟨a1, a2, a3, fun c hc => a4 c (by
+    simp only [List.mem_cons, List.not_mem_nil, or_false] at hc
+    rcases hc with h | h <;> simp [h])⟩
+
+theorem ivSumIn_self (m : Mod → Rat) (ivs : Option (List Interval)) (s : Int)
+    (hwf : ∀ L, ivs = some L → ∀ iv ∈ L, iv.start < iv.stop) : ivSumIn m ivs s s = 0 := by
+  cases hL : ivs with
+  | none => rfl
+  | some L =>
+    have hw := hwf L hL
+    simp only [ivSumIn]
+    clear hL hwf
+    induction L with
+    | nil => rfl
+    | cons iv t ih =>
+      have := hw iv (by simp)
+      have c : ¬ (s ≤ iv.start ∧ iv.stop ≤ s) := by omega
+      simp only [List.filter_cons, c, decide_false, Bool.false_eq_true, if_false]
+      exact ih (fun x hx => hw x (by simp [hx]))
+
+theorem pieces_amass_iv (w : Char × List Mod → Rat) (m : Mod → Rat) (t : Option (List Mod) → Rat) (h : Rat)
+    (a : Annotation) (s : Nat) (ends : List Nat) (hinc : Increasing s ends a.seq.length)
+    (hc : CutsOK a.intervals a.seq.length (s :: ends)) :
+    ((piecesFrom a s ends).map (amass w m t h)).sum =
+      weight w (((residues a).drop s).take (lastOf s ends - s)) +
+        (if s = 0 ∧ ends ≠ [] then modSum m a.nterm else 0) +
+        (if lastOf s ends = a.seq.length ∧ ends ≠ [] then modSum m a.cterm else 0) +
+        ivSumIn m a.intervals s (lastOf s ends) +
+        times ends.length (h + inherited m t a) := by
+  induction ends generalizing s with
+  | nil =>
+    have : ivSumIn m a.intervals s s = 0 :=
+      ivSumIn_self m a.intervals s (fun L hL iv hiv => (hc L hL iv hiv).2.1)
+    simp [piecesFrom, lastOf, weight, times, this]; grind
+  | cons e rest ih =>
+    have hb := hinc.2.lastOf_bounds
+    have hse := hinc.1
+    have hsplit := ivSumIn_split m a.intervals (s : Int) (e : Int) (lastOf e rest : Int) (by omega) (by omega)
+      (fun L hL iv hiv => ⟨(hc L hL iv hiv).2.1, (hc L hL iv hiv).2.2.2 e (by simp)⟩)
+    simp only [piecesFrom, lastOf, List.map_cons, List.sum_cons, List.length_cons, times]
+    rw [ih e hinc.2 hc.tail, amass_slice_iv w m t h a s e hc.pair,
+      residues_slice a s e (by omega) (by omega),
+      ← drop_take_append (residues a) s e (lastOf e rest) (by omega) hb.1, weight_append, hsplit]
+    have e0 : ¬ (e = 0 ∧ rest ≠ []) := by omega
+    simp only [e0, if_false, ne_eq, reduceCtorEq, not_false_eq_true, and_true]
+    by_cases hr : rest = []
+    · subst hr
+      simp only [lastOf, ne_eq, not_true_eq_false, and_false, if_false]
+      have : e ≤ a.seq.length := hb.2.1
+      by_cases he : e < a.seq.length
+      · have : ¬ e = a.seq.length := by omega
+        simp only [he, this, if_true, if_false]; grind
+      · have : e = a.seq.length := by omega
+        simp only [he, this, if_true, if_false]; grind
+    · have h1 := hb.2.2 hr
+      have he : e < a.seq.length := by omega
+      simp only [he, if_true, hr, ne_eq, not_false_eq_true, and_true]
+      grind
+
+theorem ivSumIn_all (m : Mod → Rat) (ivs : Option (List Interval)) (n : Nat)
+    (hwf : ∀ L, ivs = some L → ∀ iv ∈ L, 0 ≤ iv.start ∧ iv.stop ≤ (n : Int)) :
+    ivSumIn m ivs 0 n = intervalSum m ivs := by
+  cases hL : ivs with
+  | none => rfl
+  | some L =>
+    have hw := hwf L hL
+    simp only [ivSumIn, intervalSum]
+    clear hL hwf
+    induction L with
+    | nil => rfl
+    | cons iv t ih =>
+      have c := hw iv (by simp)
+      simp only [List.filter_cons, c, and_self, decide_true, if_true, List.map_cons, List.sum_cons,
+        ih (fun x hx => hw x (by simp [hx]))]
+
 /-! ### facts about the demo annotations -/
 
 theorem demo_keysOK : KeysOK demo := by
